@@ -240,6 +240,17 @@ def cached_gate_emit(rng):
     return {"family": "cached", "spec": spec, "inputs": gen.gated_inputs(rng, spec), "kw": {}}
 
 
+def interrupt_family(rng):
+    """DAG with 1-2 pausing interrupts: exercises PAUSED results."""
+    from hgmon.props import C14
+
+    spec = gen.gen_dag(rng, n_nodes=(3, 7), p_default_edge=0.0, p_gen=0.0, p_emit=0.2)
+    C14.make_interrupts(rng, spec, rng.randint(1, 2))
+    C14.rename_consumers_fix(spec)
+    inputs = {k: f"run:{k}" for k in gen.consumed_inputs(spec)}
+    return {"family": "interrupt", "spec": spec, "inputs": inputs, "kw": {}}
+
+
 def run(ctx):
     n = 400 if ctx.tier == "quick" else 1500
     core.WARM_P = 0.0
@@ -249,5 +260,5 @@ def run(ctx):
         ctx.case("r2")
         return
     for i in range(n):
-        fam = cached_gate_emit(ctx.rng) if i % 5 == 4 else families.rich(ctx.rng)
+        fam = cached_gate_emit(ctx.rng) if i % 5 == 4 else interrupt_family(ctx.rng) if i % 7 == 3 else families.rich(ctx.rng)
         one(ctx, fam, i)
